@@ -46,6 +46,16 @@ pub fn label_expr(e: &OpeningHoursExpression, case: &mut Case) -> u32 {
                         if start.1 != ds::DateOffset::default() || end.1 != ds::DateOffset::default() {
                             case.label("date_offset");
                         }
+                        if start != end && start.0.has_year() && !end.0.has_year() {
+                            if let Some((s0, e0)) = crate::model::dated_interval(start, end) {
+                                use chrono::Datelike;
+                                if let Some(sy) = crate::model::date_year(&start.0) {
+                                    if e0.year() >= sy + 2 || (e0 - s0).num_days() > 366 {
+                                        case.label("dated_range_ending_two_years_later");
+                                    }
+                                }
+                            }
+                        }
                         for d in [&start.0, &end.0] {
                             if let ds::Date::Fixed { day, month, .. } = d {
                                 if *day >= 29 && matches!(month, ds::Month::February) || *day == 31 {
